@@ -374,3 +374,44 @@ theorem session_after_close (w0 : World) (hI : Inv3 w0) (h : Nat) :
     simpa using hmap0
 
 end Gorm.SCS
+
+namespace Gorm.SCS
+
+/-- once a cache is registered, every `Session(PrepareStmt)` that STARTS afterwards ends up on it, whatever the
+    interleaving of the calls -/
+structure CInv (c : Nat) (n : Nat) (s : CState) : Prop where
+  store : s.store = some c
+  nC : s.nC = n
+  loaded : ∀ g, s.loaded g = none ∨ s.loaded g = some (some c)
+  got : ∀ g, s.got g = none ∨ s.got g = some c
+
+theorem cstep_inv (c n : Nat) (s : CState) (hI : CInv c n s) (a : CAct) : CInv c n (cstep s a) := by
+  cases a with
+  | load g =>
+    simp only [cstep]
+    cases hl : s.loaded g with
+    | some x => exact hI
+    | none =>
+      refine ⟨hI.store, hI.nC, fun j => ?_, hI.got⟩
+      by_cases hj : j = g
+      · simp [hj, hI.store]
+      · simp only [hj, if_false]; exact hI.loaded j
+  | build g =>
+    simp only [cstep]
+    rcases hI.loaded g with hl | hl
+    · rw [hl]; exact hI
+    · rw [hl]
+      rcases hI.got g with hg | hg
+      · rw [hg]
+        refine ⟨hI.store, hI.nC, hI.loaded, fun j => ?_⟩
+        by_cases hj : j = g
+        · simp [hj]
+        · simp only [hj, if_false]; exact hI.got j
+      · rw [hg]; exact hI
+
+theorem crun_inv (c n : Nat) (sched : List CAct) (s : CState) (hI : CInv c n s) : CInv c n (crun s sched) := by
+  induction sched generalizing s with
+  | nil => exact hI
+  | cons a rest ih => exact ih _ (cstep_inv c n s hI a)
+
+end Gorm.SCS
